@@ -39,6 +39,9 @@ PROGRAMS = [
     "SELECT sum(o.amount) AS s FROM orders AS o JOIN users AS u ON o.kind = u.city",
     "SELECT sum(a.amount) AS s, count(b.amount) AS n FROM orders AS a JOIN orders AS b ON a.kind = b.kind",
     "SELECT sum(u.age) AS s FROM users AS u LEFT JOIN orders AS o ON u.id = o.user_id",
+    # a column whose range is far below 1: the clip bound C is below 1 and norm / norm^2 differ in the other direction
+    "SELECT sum(frac) AS f FROM orders",
+    "SELECT kind, flag, sum(amount) AS s FROM orders GROUP BY kind, flag",
 ]
 
 PARAMS = {
@@ -77,6 +80,7 @@ def fixed_for(layout, K):
         fx["orders"][("id", i)] = i
         fx["orders"][("user_id", i)] = layout["order_user"][i]
         fx["orders"][("kind", i)] = layout["kind"][i]
+        fx["orders"][("flag", i)] = i % 2   # a second public key, concrete like the first
         fx["items"][("id", i)] = i
         # referential integrity: an item refers to an order that exists (a row without an owner has no privacy unit at all)
         fx["items"][("order_id", i)] = (i % K) if layout["order_present"][i % K] else 0
@@ -184,7 +188,7 @@ def main():
     pus = pucat.pu_defs()
     configs = [("chain", "default"), ("chain", "mult1")] if tier == "quick" else [(p, q) for p in pus for q in PARAMS]
     jobs, keys = [], []
-    progs_ = PROGRAMS[:int(os.environ["C01_PROGS"])] if os.environ.get("C01_PROGS") else (PROGRAMS if tier != "quick" else [PROGRAMS[i] for i in (0, 1, 2, 3, 5, 6, 7, 9, 12, 13, 14, 16)])
+    progs_ = PROGRAMS[:int(os.environ["C01_PROGS"])] if os.environ.get("C01_PROGS") else (PROGRAMS if tier != "quick" else [PROGRAMS[i] for i in (0, 1, 2, 3, 5, 6, 7, 9, 12, 13, 14, 16, 17)])
     import random as _random
     from common import seed as _seed
     rnd = _random.Random(_seed() * 104729 + 1)
